@@ -94,6 +94,12 @@ def run(ck, prog, ctx):
                     at = [pvn.of_operand(pr, a) for a in t.args[1:]]
                     f1 = field_names(at[1], "DiseaseComponents") if len(at) > 1 else set()
                     f2 = field_names(at[2], "DiseaseComponents") if len(at) > 2 else set()
+                    if not f2 and len(t.args) > 3 and t.args[3].place is not None and re.search(r"Vec<|HpoGroup|impl |Iterator|IntoIter", pr.locals[t.args[3].place.local]["s"]):
+                        # a bulk call (`annotate_omim_disease_terms(id, name, terms)`): the third argument is a collection that was filled elsewhere;
+                        # which rows it holds is the block logic's business, not read by this rule
+                        ck.ob("ROLE", "parse/%s/args" % vname, "name" in f1 and "id" not in f1, "annotate receives (id, %s, <collection>)" % sorted(f1), where=pr.where(t.line))
+                        ck.undecided("ROLE", "parse/%s/args/terms" % vname, "the %s arm hands a collection of terms to %s: the rows that fill it are not followed" % (vname, t.callee.res.rsplit("::", 1)[-1]), where=pr.where(t.line))
+                        continue
                     ck.ob("ROLE", "parse/%s/args" % vname, "name" in f1 and "hpo_id" in f2 and "id" not in f1 | f2, "annotate receives (id, %s, %s) (expected (id, name, hpo_id))" % (sorted(f1), sorted(f2)), where=pr.where(t.line))
         ck.floor("KIND", "DiseaseKind arms in parse", total, 2)
         # every annotate call sits in one of the arms
@@ -200,7 +206,8 @@ def run(ck, prog, ctx):
             raw = names & {"read_line", "read_until", "read_to_string", "split", "split_inclusive", "split_terminator"}
             trims = names & {"trim_end", "trim", "trim_end_matches", "strip_suffix", "trim_matches"}
             n_ls += 1
-            if "lines" in names and not raw:
+            if "lines" in names and not (raw - {"read_to_string"}):
+                # (`fs::read_to_string(..)` + `str::lines()`: the text was read whole, the LINES handed on are those of lines())
                 ck.ob("ROLE", "line-source/%s" % fb0.short, True, "%s hands each line of %s to the line parser as produced by lines() (terminator removed)" % (fb0.short, what), where=fb0.where(t.line))
             elif raw and not trims:
                 ck.ob("ROLE", "line-source/%s" % fb0.short, False, "%s hands the text read with `%s` to the line parser without removing the line terminator: the last column of a row (gene symbol / HPO id) ends in a newline" % (fb0.short, sorted(raw)[0]), where=fb0.where(t.line))
